@@ -82,7 +82,8 @@ def compress(body, compress_level):
         crc = zlib.crc32(chunk, crc)
         yield zobj.compress(chunk)
 
-    yield zobj.flush() + struct.pack('<l', crc) + struct.pack('<L', size & 0xFFFFFFFF)
+    # (crc32() is unsigned in Python 3)
+    yield zobj.flush() + struct.pack('<L', crc & 0xFFFFFFFF) + struct.pack('<L', size & 0xFFFFFFFF)
 
 
 def get_ranges(headervalue, content_length):
